@@ -107,3 +107,9 @@ emit("F15b-optional-hides-decorator-error","C07","C07.failure-hidden",h,"decorat
 # F16 (known, not repaired): RootCause looks through a user error that wraps a foreign dig error
 h=H(); h.provide(0,[],["V0"],err=True,faults={"1":"digerr"}); h.invoke(0,["V0"])
 emit("F16-rootcause-through-user-error","C13","C13.rootcause-nested-dig-error",h,"constructor returns an error wrapping another container's dig error: RootCause(err) is the foreign error's root cause, not the constructor's error",kind="hist:faults")
+# F17: dig.As listing the result's own interface type together with another interface drops the own type
+h=H(); h.provide(0,[],["I3"],**{"as":[19,16]}); h.invoke(0,["I0"]); h.invoke(0,["I3"])
+emit("F17-as-own-type-dropped","C09","C04.should-succeed",h,"Provide(func() I3, As(new(I3), new(I0))): the value is available as I0 only, although I3 is listed",kind="hist:keys")
+# F18: a grouped result with the same interface listed twice in dig.As is delivered twice
+h=H(); h.provide(0,[],["V0@g1"],**{"as":[16,16],"go":"g1"}); h.invoke(0,["I0@g1"])
+emit("F18-group-duplicate-as","C10","C10.group-content",h,"Provide(func() V0, Group(\"g1\"), As(new(I0), new(I0))): consumers of []I0 in g1 receive the member twice",kind="hist:groups")
